@@ -36,14 +36,14 @@ theorem canonParts_fields (puny : Str → Str) (sf : Bool) (r : SplitResult) (po
     (canonParts puny false sf (parsedOf r po')).netloc =
       unsplitNetloc (canonOpt false unquoteAuthItem (username r.netloc))
         (canonOpt false unquoteAuthItem (password r.netloc))
-        (match hostname r.netloc with
+        (bracketHost r.netloc (match hostname r.netloc with
           | some h => if h.isEmpty then some h else some (canonHost puny h)
-          | none => none)
+          | none => none))
         (match po' with
           | some n => if defaultPort r.scheme = some n then none else some n
           | none => none) ∧
     (canonParts puny false sf (parsedOf r po')).path =
-      unquotePath (canonPath r.path (!r.query.isEmpty || truthy (if sf then none else some r.fragment))) ∧
+      unquotePath (canonPath r.path (hasMore puny sf (parsedOf r po'))) ∧
     (canonParts puny false sf (parsedOf r po')).query = canonQuery false r.query ∧
     (canonParts puny false sf (parsedOf r po')).fragment =
       canonOpt false unquoteFragment (if sf then none else some r.fragment) := by
@@ -83,17 +83,30 @@ theorem natToStr_length_le {n : Nat} (h : n ≤ 65535) : (natToStr n).length ≤
 /-- the printed result of `canonicalize_url` on a cleaned string of the shape -/
 theorem canon_shape (puny : Str → Str) (hpuny : PunyLabelSafe puny) (sf : Bool)
     {x sch ui H po tl S rest : Str} {p : Parsed}
-    (hsh : Shape x sch ui H po tl) (hcl : Cleaned x S rest) (hp : parseUrl x = some p) :
+    (hsh : Shape x sch ui H po tl) (hcl : Cleaned x S rest) (hp : parseUrl x = some p)
+    (hnb : '[' ∉ ui ∧ ']' ∉ ui) :
     ∃ ui' po' tl', Shape (urlunsplit (canonParts puny false sf p)) (lower sch) ui'
         (canonHost puny (lower H)) po' tl' ∧
       NoWs (urlunsplit (canonParts puny false sf p)) ∧
       (ui' = [] ∨ ∃ w, ui' = w ++ ['@'] ∧ w ≠ []) ∧
-      (po' = [] ∨ ∃ ds, po' = ':' :: ds ∧ ds.length ≤ 5) := by
+      (po' = [] ∨ ∃ ds, po' = ':' :: ds ∧ ds.length ≤ 5) ∧
+      netlocOk (ui' ++ (canonHost puny (lower H) ++ po')) = true ∧
+      printSplit (canonParts puny false sf p) = urlunsplit (canonParts puny false sf p) := by
   have hs := hsh.sch.facts
   have hf := fromParse hcl hp
   have hxctl : NoCtl x := hcl.noCtl
   -- what the parser read
-  obtain ⟨pa, q, f, hsp⟩ := hsh.urlsplit_eq
+  have hnl_nb : '[' ∉ ui ++ (H ++ po) ∧ ']' ∉ ui ++ (H ++ po) := by
+    constructor
+    · intro hm
+      rcases List.mem_append.mp hm with hm | hm
+      · exact hnb.1 hm
+      · exact hsh.hostport_no_bracket.1 hm
+    · intro hm
+      rcases List.mem_append.mp hm with hm | hm
+      · exact hnb.2 hm
+      · exact hsh.hostport_no_bracket.2 hm
+  obtain ⟨pa, q, f, hsp⟩ := hsh.urlsplit_ok (netlocOk_of_no_bracket hnl_nb.1 hnl_nb.2)
   unfold parseUrl at hp
   rw [hsp] at hp
   simp only at hp
@@ -126,14 +139,20 @@ theorem canon_shape (puny : Str → Str) (hpuny : PunyLabelSafe puny) (sf : Bool
     cases hl : lower H with
     | nil => exact absurd hl hlowne
     | cons a r => simp
-  rw [hhost] at f2
+  have hbh : bracketHost (ui ++ (H ++ po)) (some (canonHost puny (lower H))) =
+      some (canonHost puny (lower H)) := by
+    unfold bracketHost bracketedHost
+    rw [hsh.hostinfo_eq, if_neg]
+    intro hh
+    exact hsh.hostport_no_bracket.1 (by simpa using hh.2)
+  rw [hhost, hbh] at f2
   -- names
   generalize hU : strOf (canonOpt false unquoteAuthItem (username (ui ++ (H ++ po)))) = U at *
   generalize hP : strOf (canonOpt false unquoteAuthItem (password (ui ++ (H ++ po)))) = P at *
   generalize hport2 : (match po1 with
       | some n => if defaultPort (lower sch) = some n then none else some n
       | none => none) = port2 at *
-  generalize hmore : (!q.isEmpty || truthy (if sf then none else some f)) = more at *
+  generalize hmore : hasMore puny sf (parsedOf ⟨lower sch, ui ++ (H ++ po), pa, q, f⟩ po1) = more at *
   have hcolon : ':' ∉ canonHost puny (lower H) := fun hm => (host_goodChar hHc _ hm).nocolon rfl
   have hhp : hostPart (canonHost puny (lower H)) = canonHost puny (lower H) := by
     unfold hostPart
@@ -166,7 +185,7 @@ theorem canon_shape (puny : Str → Str) (hpuny : PunyLabelSafe puny) (sf : Bool
     rw [hb]
     simp [schemePart, hscne]
   -- the userinfo characters
-  have huser : ∀ c ∈ U, UiChar c ∧ isSpace c = false := by
+  have huser : ∀ c ∈ U, UiChar c ∧ c ≠ '[' ∧ c ≠ ']' ∧ isSpace c = false := by
     intro c hc
     rw [← hU] at hc
     obtain ⟨u0, hu0, hcu⟩ := mem_strOf_canonOpt hc
@@ -186,18 +205,18 @@ theorem canon_shape (puny : Str → Str) (hpuny : PunyLabelSafe puny) (sf : Bool
         · exact absurd g.nodelim (by decide)
         · exact absurd g.nodelim (by decide)
         · exact absurd g.nodelim (by decide)
-        · exact g.nolb rfl
-        · exact g.norb rfl
+        · exact hnl_nb.1 (hsub hm)
+        · exact hnl_nb.2 (hsub hm)
       exact requote_auth_not_mem hd' false u0 hnu hcu
     have hcc : isControlChar c = false := noCtl_requote false _ hctl0 c hcu
-    refine ⟨⟨?_, hnot '[' (by simp), hnot ']' (by simp), unsafe_of_ctl hcc⟩, ?_⟩
+    refine ⟨⟨?_, unsafe_of_ctl hcc⟩, hnot '[' (by simp), hnot ']' (by simp), ?_⟩
     · have h1 := hnot '/' (by simp)
       have h2 := hnot '?' (by simp)
       have h3 := hnot '#' (by simp)
       simp [isNetlocDelim, h1, h2, h3]
     · simp only [requote, Bool.false_eq_true, if_false] at hcu
       exact noWs_safelyUnquote _ hctl0 c hcu
-  have hpass : ∀ c ∈ P, UiChar c ∧ isSpace c = false := by
+  have hpass : ∀ c ∈ P, UiChar c ∧ c ≠ '[' ∧ c ≠ ']' ∧ isSpace c = false := by
     intro c hc
     rw [← hP] at hc
     obtain ⟨u0, hu0, hcu⟩ := mem_strOf_canonOpt hc
@@ -217,11 +236,11 @@ theorem canon_shape (puny : Str → Str) (hpuny : PunyLabelSafe puny) (sf : Bool
         · exact absurd g.nodelim (by decide)
         · exact absurd g.nodelim (by decide)
         · exact absurd g.nodelim (by decide)
-        · exact g.nolb rfl
-        · exact g.norb rfl
+        · exact hnl_nb.1 (hsub hm)
+        · exact hnl_nb.2 (hsub hm)
       exact requote_auth_not_mem hd' false u0 hnu hcu
     have hcc : isControlChar c = false := noCtl_requote false _ hctl0 c hcu
-    refine ⟨⟨?_, hnot '[' (by simp), hnot ']' (by simp), unsafe_of_ctl hcc⟩, ?_⟩
+    refine ⟨⟨?_, unsafe_of_ctl hcc⟩, hnot '[' (by simp), hnot ']' (by simp), ?_⟩
     · have h1 := hnot '/' (by simp)
       have h2 := hnot '?' (by simp)
       have h3 := hnot '#' (by simp)
@@ -229,7 +248,7 @@ theorem canon_shape (puny : Str → Str) (hpuny : PunyLabelSafe puny) (sf : Bool
     · simp only [requote, Bool.false_eq_true, if_false] at hcu
       exact noWs_safelyUnquote _ hctl0 c hcu
   have hauth : (authPart U P = [] ∨ ∃ w, authPart U P = w ++ ['@'] ∧ w ≠ [] ∧
-      ∀ c ∈ w, UiChar c ∧ isSpace c = false) := by
+      ∀ c ∈ w, UiChar c ∧ c ≠ '[' ∧ c ≠ ']' ∧ isSpace c = false) := by
     unfold authPart
     by_cases hPe : P = []
     · by_cases hUe : U = []
@@ -242,7 +261,7 @@ theorem canon_shape (puny : Str → Str) (hpuny : PunyLabelSafe puny) (sf : Bool
       rcases List.mem_append.mp hc with h | h
       · exact huser c h
       · rcases List.mem_cons.mp h with rfl | h
-        · exact ⟨⟨by decide, by decide, by decide, by decide⟩, by decide⟩
+        · exact ⟨⟨by decide, by decide⟩, by decide, by decide, by decide⟩
         · exact hpass c h
   -- the port
   have hportP : portPart port2 = [] ∨ ∃ ds, portPart port2 = ':' :: ds ∧ ds ≠ [] ∧ ds.length ≤ 5 ∧
@@ -321,7 +340,7 @@ theorem canon_shape (puny : Str → Str) (hpuny : PunyLabelSafe puny) (sf : Bool
     · rw [e]; exact ⟨'h', 't', 't', 'p', [], rfl, Or.inl rfl, Or.inl rfl, Or.inl rfl, Or.inl rfl, Or.inl rfl⟩
     · rw [e]; exact ⟨'h', 't', 't', 'p', ['s'], rfl, Or.inl rfl, Or.inl rfl, Or.inl rfl, Or.inl rfl,
         Or.inr (Or.inl rfl)⟩
-  refine ⟨authPart U P, portPart port2, path' ++ (queryPart q' ++ fragPart F), ?_, ?_, ?_, ?_⟩
+  refine ⟨authPart U P, portPart port2, path' ++ (queryPart q' ++ fragPart F), ?_, ?_, ?_, ?_, ?_, ?_⟩
   · refine ⟨hc, hsch', ?_, hHc, ?_, htail⟩
     · rcases hauth with e | ⟨w, e, _, hw⟩
       · exact Or.inl e
@@ -340,7 +359,7 @@ theorem canon_shape (puny : Str → Str) (hpuny : PunyLabelSafe puny) (sf : Bool
     · rcases hauth with e | ⟨w, e, _, hw⟩
       · rw [e]; exact noWs_nil
       · rw [e]
-        exact NoWs.append (fun c hc => (hw c hc).2) (NoWs.cons (by decide) noWs_nil)
+        exact NoWs.append (fun c hc => (hw c hc).2.2.2) (NoWs.cons (by decide) noWs_nil)
     apply NoWs.append (fun c hc => (host_goodChar hHc c hc).nospace)
     apply NoWs.append
     · rcases hportP with e | ⟨ds, e, _, _, hds⟩
@@ -353,5 +372,50 @@ theorem canon_shape (puny : Str → Str) (hpuny : PunyLabelSafe puny) (sf : Bool
   · rcases hportP with e | ⟨ds, e, _, hlen, _⟩
     · exact Or.inl e
     · exact Or.inr ⟨ds, e, hlen⟩
+  · -- the printed netloc holds no bracket
+    apply netlocOk_of_no_bracket
+    · intro hm
+      rcases List.mem_append.mp hm with hm | hm
+      · rcases hauth with e | ⟨w, e, _, hw⟩
+        · rw [e] at hm; cases hm
+        · rw [e] at hm
+          rcases List.mem_append.mp hm with hm | hm
+          · exact (hw _ hm).2.1 rfl
+          · simp at hm
+      · rcases List.mem_append.mp hm with hm | hm
+        · exact (host_goodChar hHc _ hm).nolb rfl
+        · rcases hportP with e | ⟨ds, e, _, _, hds⟩
+          · rw [e] at hm; cases hm
+          · rw [e] at hm
+            rcases List.mem_cons.mp hm with hm | hm
+            · cases hm
+            · have := hds _ hm
+              revert this; decide
+    · intro hm
+      rcases List.mem_append.mp hm with hm | hm
+      · rcases hauth with e | ⟨w, e, _, hw⟩
+        · rw [e] at hm; cases hm
+        · rw [e] at hm
+          rcases List.mem_append.mp hm with hm | hm
+          · exact (hw _ hm).2.2.1 rfl
+          · simp at hm
+      · rcases List.mem_append.mp hm with hm | hm
+        · exact (host_goodChar hHc _ hm).norb rfl
+        · rcases hportP with e | ⟨ds, e, _, _, hds⟩
+          · rw [e] at hm; cases hm
+          · rw [e] at hm
+            rcases List.mem_cons.mp hm with hm | hm
+            · cases hm
+            · have := hds _ hm
+              revert this; decide
+  · -- a non-empty authority: `printSplit` is `urlunsplit`
+    unfold printSplit
+    have hne : (canonParts puny false sf (parsedOf ⟨lower sch, ui ++ (H ++ po), pa, q, f⟩ po1)).netloc ≠ [] := by
+      rw [hnl']; simp [hHcne]
+    have : (canonParts puny false sf (parsedOf ⟨lower sch, ui ++ (H ++ po), pa, q, f⟩ po1)).netloc.isEmpty = false := by
+      cases hn : (canonParts puny false sf (parsedOf ⟨lower sch, ui ++ (H ++ po), pa, q, f⟩ po1)).netloc with
+      | nil => exact absurd hn hne
+      | cons _ _ => rfl
+    simp [this]
 
 end Ural.UrlPattern
